@@ -136,3 +136,19 @@ CHECKS["C08"] = {
     "outside": "FQDN / IPv6 node ids, UE IPv6 addresses, symbolic UE addresses (they pass through text formatting), more than two requests per run",
     "assumptions": PFCP_ASSUME + ["the server's start instant is set by the harness (recoveryTime field) so that engine and native replay agree; time.Now() in the engine is a different instant, so a per-response time.Now() is detected"],
 }
+
+CHECKS["C06"] = {
+    "jobs": {
+        "quick": [{"pkg": "internal/pfcp", "entries": ["ZZ_C06_*"], "witnesses": 3, "max_paths": 400000, "budget_s": 900}],
+        "thorough": [{"pkg": "internal/pfcp", "entries": ["ZZ_C06_*"], "witnesses": 6, "max_paths": 4000000, "budget_s": 3000}],
+    },
+    "covers": {"all": ["ZZ_C06_Loop:C06.done", "ZZ_C06_Loop:C06.dup", "ZZ_C06_Loop:C06.first", "ZZ_C06_Loop:C06.expiry", "ZZ_C06_Loop:C06.same-key",
+                       "ZZ_C06_Retention:C06.retention.done"]},
+    "bounds": {
+        "quick": "the real event loop (PfcpServer.main + receiver as coroutines) fed with 3 events after a 3-request prefix; two request templates with kind in {Heartbeat, Association Setup, Establishment, Deletion, Establishment without Node ID}, source one of two peers, 24-bit symbolic sequence numbers (equal or different); each event is a copy of template 0/1 or the retention-timer expiry of its key, in every order; retention value checked for MaxRetrans 0..255 x 3 timeouts",
+        "thorough": "same with 4 events",
+    },
+    "outside": "more than 4 events / 2 distinct keys; real time (expiry is injected through NotifyTransTimeout, the entry point the timer callback uses); pre-emptive interleavings (the loop is single threaded; events are serialised by its select)",
+    "assumptions": PFCP_ASSUME + ["goroutines are cooperative coroutines; the loop is run to quiescence after each injected event, which enumerates exactly the merges of the receive and timeout queues"],
+}
+
